@@ -1,9 +1,11 @@
 (* C16 — the LTS simulation engine returns the greatest simulation inside a given initial partition/preorder.
    Nothing but statements closed by [exact]; the proofs are in LtsSimProofs.v.
-   The engine's refinement algorithm (src/explicit_lts_sim.cc) is not modelled algorithmically: these theorems
-   fix the function it must compute; the tie to the C++ is the behavioural correspondence check. *)
+   The first group fixes the function the engine must compute; the second group ((A), LtsWork*.v / LtsCount*.v) is about the
+   engine's refinement algorithm (src/explicit_lts_sim.cc) at the level of states — every block a singleton: pruning by enabled
+   labels, remove sets, queue, counters; the splitting of blocks is not modelled. The tie to the C++ is the behavioural
+   correspondence check. *)
 From Coq Require Import List NArith Bool.
-From V Require Import Gfp LtsSimDefs LtsSimProofs.
+From V Require Import Gfp LtsSimDefs LtsSimProofs LtsWorkDefs LtsWorkProofs LtsCountDefs LtsCountProofs.
 
 (* the model's result is a simulation inside the initial relation and contains every such relation
    (holds for every partition / block relation; the property's hypotheses are needed for the preorder clauses only) *)
@@ -51,6 +53,59 @@ Example C16_example_result : lts_sim ex_lts 3 (cons (cons 0 (cons 2 nil)) (cons 
                              = (cons (0, 0) (cons (0, 1) (cons (1, 1) (cons (2, 2) nil))))%N.
 Proof. exact ex_result. Qed.
 
+(* (A) the refinement algorithm with remove sets and a queue of (state, label) entries: whatever the queue discipline (lifo as in
+   the code, or fifo) and the fuel, a run that ends returns exactly the greatest simulation inside the initial relation, hence
+   passes the gate for every output size *)
+Theorem C16_algo_partial_correct : forall L lifo fuel n part brel R',
+  hhk_sim L lifo fuel n part brel = Some R' -> forall q r, In (q, r) R' <-> In (q, r) (lts_sim L n part brel).
+Proof. exact hhk_sim_partial_correct. Qed.
+Theorem C16_algo_passes_gate : forall L lifo fuel n part brel m R',
+  hhk_sim L lifo fuel n part brel = Some R' -> gate_lts L n part brel m (output m R') = true.
+Proof. exact hhk_sim_passes_gate. Qed.
+(* the invariant behind it, for any start that satisfies it: the relation stays between the greatest simulation and the initial
+   relation, a state in a remove set has no transition into a state still related, and a pair whose step condition fails is
+   announced by an entry of a remove set *)
+Theorem C16_algo_invariant_suffices : forall L R0 lifo fuel R Rem R',
+  Inv L R0 R Rem -> hhk L lifo fuel R Rem = Some R' -> forall q r, In (q, r) R' <-> In (q, r) (lts_sim_from L R0).
+Proof. exact hhk_partial_correct. Qed.
+Theorem C16_algo_init_invariant : forall L R0, Inv L R0 (prune_enabled L R0) (init_removes L (prune_enabled L R0)).
+Proof. exact init_inv. Qed.
+(* init()'s pruning by enabled labels is necessary: without it a candidate that lacks a label altogether is never examined *)
+Theorem C16_algo_noprune_refuted :
+  exists R', hhk_sim_noprune np_lts true 10 2 (cons (cons 0 (cons 1 nil)) nil)%N (cons (0, 0) nil)%N = Some R' /\ In (0, 1)%N R' /\
+             ~ In (0, 1)%N (lts_sim np_lts 2 (cons (cons 0 (cons 1 nil)) nil)%N (cons (0, 0) nil)%N).
+Proof. exact hhk_noprune_refuted. Qed.
+(* (A) the same loop with the counters of the code: counter (b, q, r0) = number of b-transitions of r0 into states still related
+   to q; a state enters a remove set when its counter reaches zero. The counters stay exact (CInv), so the run is partially correct *)
+Theorem C16_counters_partial_correct : forall L lifo fuel n part brel R',
+  hhkc_sim L lifo fuel n part brel = Some R' -> forall q r, In (q, r) R' <-> In (q, r) (lts_sim L n part brel).
+Proof. exact hhkc_sim_partial_correct. Qed.
+Theorem C16_counters_passes_gate : forall L lifo fuel n part brel m R',
+  hhkc_sim L lifo fuel n part brel = Some R' -> gate_lts L n part brel m (output m R') = true.
+Proof. exact hhkc_sim_passes_gate. Qed.
+Theorem C16_counters_init_exact : forall L R, CInv L R (init_counts L R).
+Proof. exact init_counts_exact. Qed.
+(* counters computed before init()'s pruning start too high and never reach zero: refuted (and on the same system the model with
+   exact counters returns the functional model's relation) *)
+Theorem C16_counters_stale_refuted :
+  exists R', hhkc_sim_stale st_lts true 200 9 (cons (seqN 9) nil) (cons (0, 0) nil)%N = Some R' /\ In (0, 2)%N R' /\
+             ~ In (0, 2)%N (lts_sim st_lts 9 (cons (seqN 9) nil) (cons (0, 0) nil)%N) /\
+             hhkc_sim st_lts true 200 9 (cons (seqN 9) nil) (cons (0, 0) nil)%N = Some (lts_sim st_lts 9 (cons (seqN 9) nil) (cons (0, 0) nil)%N).
+Proof. exact hhkc_stale_counts_refuted. Qed.
+(* the runs end on the example system, in both queue disciplines *)
+Example C16_algo_example :
+  hhk_sim ex_lts true 20 3 (cons (cons 0 (cons 2 nil)) (cons (cons 1 nil) nil))%N (cons (0, 0) (cons (1, 1) (cons (0, 1) nil)))%N
+    = Some (cons (0, 0) (cons (0, 1) (cons (1, 1) (cons (2, 2) nil))))%N /\
+  hhk_sim ex_lts false 20 3 (cons (cons 0 (cons 2 nil)) (cons (cons 1 nil) nil))%N (cons (0, 0) (cons (1, 1) (cons (0, 1) nil)))%N
+    = Some (cons (0, 0) (cons (0, 1) (cons (1, 1) (cons (2, 2) nil))))%N.
+Proof. exact hhk_example. Qed.
+Example C16_counters_example :
+  hhkc_sim ex_lts true 20 3 (cons (cons 0 (cons 2 nil)) (cons (cons 1 nil) nil))%N (cons (0, 0) (cons (1, 1) (cons (0, 1) nil)))%N
+    = Some (cons (0, 0) (cons (0, 1) (cons (1, 1) (cons (2, 2) nil))))%N /\
+  hhkc_sim ex_lts false 20 3 (cons (cons 0 (cons 2 nil)) (cons (cons 1 nil) nil))%N (cons (0, 0) (cons (1, 1) (cons (0, 1) nil)))%N
+    = Some (cons (0, 0) (cons (0, 1) (cons (1, 1) (cons (2, 2) nil))))%N.
+Proof. exact hhkc_example. Qed.
+
 Print Assumptions C16_lts_sim_greatest.
 Print Assumptions C16_lts_sim_reflexive.
 Print Assumptions C16_lts_sim_transitive.
@@ -62,3 +117,14 @@ Print Assumptions C16_gate_lts_default.
 Print Assumptions C16_rel_same.
 Print Assumptions C16_example_input.
 Print Assumptions C16_example_result.
+Print Assumptions C16_algo_partial_correct.
+Print Assumptions C16_algo_passes_gate.
+Print Assumptions C16_algo_invariant_suffices.
+Print Assumptions C16_algo_init_invariant.
+Print Assumptions C16_algo_noprune_refuted.
+Print Assumptions C16_counters_partial_correct.
+Print Assumptions C16_counters_passes_gate.
+Print Assumptions C16_counters_init_exact.
+Print Assumptions C16_counters_stale_refuted.
+Print Assumptions C16_algo_example.
+Print Assumptions C16_counters_example.
